@@ -8,7 +8,8 @@
 (*   "writeB" (pipelined writes on a second file object of the same session) /         *)
 (*   "closeW" (rejected = writes the server refused on that file) / "closeR" /         *)
 (*   "put" / "get" (a whole transfer; fault = what the server did to one chunk:        *)
-(*       none | write_rejected | read_failed | read_eof | short_reads;                  *)
+(*       none | write_rejected | read_failed | read_eof | short_reads |                 *)
+(*       source_short_reads (putfo from a file-like whose read(n) returns < n bytes);   *)
 (*       same = destination bytes equal source bytes, derived by the driver)            *)
 (* every call record has out = "ok" | "exc" | "hang" (blocked, see the driver) and     *)
 (* short = the server returned a short read during the call.                           *)
